@@ -65,11 +65,13 @@ func timedSweep(h *hctx, tag string, cases []timedCase) {
 		tc.run(h, fmt.Sprintf("%s-%s-%d-dry", tag, tc.name, h.seed), 0)
 		setPolicy(nil)
 		cp.mu.Lock()
+		// a copy: a goroutine left over from the dry run (a timer goroutine, a watcher) may still announce points through cp
 		ids := make([]int, 0, len(cp.hits))
-		for id := range cp.hits {
+		hits := make(map[int]int, len(cp.hits))
+		for id, n := range cp.hits {
 			ids = append(ids, id)
+			hits[id] = n
 		}
-		hits := cp.hits
 		cp.mu.Unlock()
 		sort.Ints(ids)
 		// rotate by seed so that a bounded budget covers different points on different seeds
